@@ -32,20 +32,30 @@ type bat struct {
 	pts  [][2]int // x, t
 }
 
+// batchByName: the two groups differ in their MEASUREMENT only (m / n, both a=g) and the query groups by measurement.
+var batchByName bool
+
 func mkBatch(b bat) edge.BufferedBatchMessage {
-	tags := models.Tags{"a": []string{"g", "h"}[b.grp], "who": fmt.Sprintf("s%d", b.grp)}
+	name, a := "m", []string{"g", "h"}[b.grp]
+	if batchByName {
+		name, a = []string{"m", "n"}[b.grp], "g"
+	}
+	tags := models.Tags{"a": a, "who": fmt.Sprintf("s%d", b.grp)}
 	pts := make([]edge.BatchPointMessage, len(b.pts))
 	for i, p := range b.pts {
 		pts[i] = edge.NewBatchPointMessage(models.Fields{"x": int64(p[0])}, tags, rt.DefaultTime.T(p[1]))
 	}
-	begin := edge.NewBeginBatchMessage("m", models.Tags{"a": tags["a"]}, false, rt.DefaultTime.T(b.tmax), len(pts))
-	begin.SetDimensions(models.Dimensions{TagNames: []string{"a"}})
+	begin := edge.NewBeginBatchMessage(name, models.Tags{"a": tags["a"]}, batchByName, rt.DefaultTime.T(b.tmax), len(pts))
+	begin.SetDimensions(models.Dimensions{ByName: batchByName, TagNames: []string{"a"}})
 	return edge.NewBufferedBatchMessage(begin, pts, edge.NewEndBatchMessage())
 }
 
 func runBatchOnce(env *rt.Env, pp pipe, bs []bat, topic string) ([2][]any, error) {
 	var out [2][]any
 	script := "batch|query('SELECT x FROM db.rp.m').period(10s).every(10s).groupBy('a')\n    " + replaceTopic(pp.script, topic) + "\n    |log().prefix('out')\n"
+	if batchByName {
+		script = "batch|query('SELECT x FROM db.rp./m|n/').period(10s).every(10s).groupBy('a').groupByMeasurement()\n    " + replaceTopic(pp.script, topic) + "\n    |log().prefix('out')\n"
+	}
 	var rec *rt.RecHandler
 	if pp.alert {
 		rec = rt.NewRecHandler(topic)
@@ -64,6 +74,15 @@ func runBatchOnce(env *rt.Env, pp pipe, bs []bat, topic string) ([2][]any, error
 		return out, fmt.Errorf("%s: %w\n%s", pp.name, err, script)
 	}
 	which := func(tags map[string]string) int {
+		if batchByName {
+			switch tags["who"] {
+			case "s0":
+				return 0
+			case "s1":
+				return 1
+			}
+			return -1
+		}
 		switch tags["a"] {
 		case "g":
 			return 0
@@ -72,12 +91,23 @@ func runBatchOnce(env *rt.Env, pp pipe, bs []bat, topic string) ([2][]any, error
 		}
 		return -1
 	}
+	byNameOf := func(name string, gi int) int {
+		if batchByName && gi < 0 {
+			switch name {
+			case "m":
+				return 0
+			case "n":
+				return 1
+			}
+		}
+		return gi
+	}
 	for _, it := range res.BySink("out") {
 		var m rt.M
 		gi := -1
 		if it.Batch != nil {
 			m = rt.EncBatch(it.Batch, rt.DefaultTime, 1000)
-			gi = which(it.Batch.Tags())
+			gi = byNameOf(it.Batch.Name(), which(it.Batch.Tags()))
 			for _, bp := range it.Batch.Points() {
 				if w := which(bp.Tags()); w >= 0 && w != gi {
 					m["inconsistent"] = true
@@ -85,7 +115,7 @@ func runBatchOnce(env *rt.Env, pp pipe, bs []bat, topic string) ([2][]any, error
 			}
 		} else {
 			m = rt.EncPoint(it.Point, rt.DefaultTime, 1000)
-			gi = which(it.Point.Tags())
+			gi = byNameOf(it.Point.Name(), which(it.Point.Tags()))
 		}
 		delete(m, "group")
 		if gi < 0 {
@@ -96,7 +126,7 @@ func runBatchOnce(env *rt.Env, pp pipe, bs []bat, topic string) ([2][]any, error
 	}
 	if pp.alert {
 		for _, e := range rec.Snapshot() {
-			gi := which(e.Data.Tags)
+			gi := byNameOf(e.Data.Name, which(e.Data.Tags))
 			m := rt.M{"alert": true, "lvl": int(e.State.Level), "prev": int(e.PreviousState().Level), "t": rt.DefaultTime.K(e.State.Time)}
 			if gi < 0 {
 				gi = 0
@@ -160,7 +190,19 @@ func runBatches(r *rt.Run, env *rt.Env, t *rt.Trace) error {
 		progs = append(progs, p)
 	}
 	topicNo := 0
-	for _, pp := range batchPipes {
+	// second pass: groups that differ in the measurement only, with nodes that re-tag batches
+	byNamePipes := []pipe{
+		{name: "nDefaultTagSum", script: `|default().tag('t', 'v')|sum('x')|stateCount(lambda: "sum" > 2)`},
+		{name: "nDefaultTagStateCount", script: `|default().tag('t', 'v')|stateCount(lambda: "x" > 1)`},
+		{name: "nDeleteTagCumSum", script: `|delete().tag('zz')|cumulativeSum('x')`},
+		{name: "nEvalTagsWhereCount", script: `|eval(lambda: 'k').as('t').tags('t').keep('x')|where(lambda: count() > 2)`},
+		{name: "nStateCount", script: `|stateCount(lambda: "x" > 1)`},
+		{name: "nSumCumSum", script: `|sum('x')|cumulativeSum('sum')`},
+		{name: "nAlertLevelTag", script: `|alert().id('{{ .Group }}').crit(lambda: count() > 3).levelTag('lvl').topic('%T')|stateCount(lambda: "x" > 1)`, alert: true},
+	}
+	all := append(append([]pipe(nil), batchPipes...), byNamePipes...)
+	for ppi, pp := range all {
+		batchByName = ppi >= len(batchPipes)
 		for pi, prog := range progs {
 			topicNo++
 			topic := fmt.Sprintf("TB%d", topicNo)
@@ -202,5 +244,6 @@ func runBatches(r *rt.Run, env *rt.Env, t *rt.Trace) error {
 			t.Distinct(fmt.Sprintf("batch/%s/%d", pp.name, pi))
 		}
 	}
+	batchByName = false
 	return nil
 }
